@@ -14,7 +14,9 @@ META = {
                    "R15c the direction enters only through normalize(direction): degree 0 in its length.  R15d chord parametrisation: sample points are endpoint "
                    "+ ts*distance*direction with the same `distance` that scales the integrand, ts = linspace(0,1,n), distance = -dot + sqrt(disc), disc = dot^2 "
                    "- |endpoint|^2 + R^2, depth->radius shift by earth_radius, factor 100 (m -> cm).  R15e the early exits (disc <= 0, distance <= 0 -> 0) "
-                   "precede the integration.",
+                   "precede the integration.  R15j (pointed, read statement by statement in every method of every Earth model): a trapezoid integral over a linspace "
+                   "parameter t whose samples are placed at base + t*L*direction[k] carries that L as a factor; reported when the integrand is scaled by a different "
+                   "plain length and nothing downstream can rescale the sum (segmented or looped integrations included).",
     "not_decided": ["convergence order in `step`", "monotonic growth with the dip angle", "values of the PREM polynomials"],
     "trusted_base": ["CPython ast", "np.piecewise evaluates the i-th function where the i-th condition holds and 0 elsewhere", "PolyNF"],
     "assumptions": [],
@@ -235,6 +237,113 @@ def r15f(ctx):
             ctx.ok("R15f", ci.qual, "the model inherits PREM's density and slant_depth")
 
 
+def _factors(node):
+    """Flatten a product into its factors (no division, no unary minus: anything else is one opaque factor)."""
+    if isinstance(node, ast.BinOp) and isinstance(node.op, ast.Mult):
+        return _factors(node.left) + _factors(node.right)
+    return [node]
+
+
+def r15j(ctx):
+    """Pointed: each statement pair is read on its own -- the length that spreads the sample points along the chord must be a factor of what is integrated
+    over the same parameter, whatever else the function does (segments, loops, helpers)."""
+    repo = ctx.repo
+    ctx.rule("R15j", "every trapezoid integral over a chord parameter t carries, as a factor, the length L that places its samples at base + t*L*direction[k] "
+             "(d(path) = L dt: integrating rho over t without that L, or with another length, is not the line integral)", expected=1, kind="N")
+    fns = []
+    for ci in [repo.cls(P)] + repo.subclasses("PREM"):
+        for st in ci.node.body:
+            if isinstance(st, ast.FunctionDef):
+                fns.append((ci, st))
+    seen = 0
+    for ci, fn in fns:
+        c = f"{ci.qual}.{fn.name}"
+        assigns = {}
+        for n in ast.walk(fn):
+            if isinstance(n, ast.Assign) and len(n.targets) == 1 and isinstance(n.targets[0], ast.Name):
+                assigns.setdefault(n.targets[0].id, []).append(n.value)
+
+        def alias(node):
+            k = 0
+            while isinstance(node, ast.Name) and len(assigns.get(node.id, [])) == 1 and isinstance(assigns[node.id][0], ast.Name) and k < 4:
+                node = assigns[node.id][0]
+                k += 1
+            return node
+        dirs = {a.arg for a in fn.args.args if a.arg != "self"}
+        for call in [n for n in ast.walk(fn) if isinstance(n, ast.Call)]:
+            f = u(call.func)
+            if f not in ("trapz", "np.trapz", "np.trapezoid", "trapezoid") or len(call.args) != 2 or call.keywords:
+                continue
+            xf = [alias(x) for x in _factors(call.args[1])]
+            tnames = [x.id for x in xf if isinstance(x, ast.Name) and any(is_call(v, func="np.linspace") for v in assigns.get(x.id, []))]
+            if len(tnames) != 1:
+                continue
+            t = tnames[0]
+            # sample-point statements: base + t * L... * <vector>[k]
+            lengths = []
+            readable = True
+            for nm, vals in assigns.items():
+                for v in vals:
+                    if not (isinstance(v, ast.BinOp) and isinstance(v.op, ast.Add)):
+                        continue
+                    for side in (v.left, v.right):
+                        fs = _factors(side)
+                        if not any(isinstance(x, ast.Name) and x.id == t for x in fs):
+                            continue
+                        comp = [x for x in fs if isinstance(x, ast.Subscript) and isinstance(x.value, ast.Name) and isinstance(x.slice, ast.Constant)]
+                        if len(comp) != 1:
+                            readable = False
+                            continue
+                        rest = [alias(x) for x in fs if x is not comp[0] and not (isinstance(x, ast.Name) and x.id == t)]
+                        lengths.append((nm, sorted(u(x) for x in rest)))
+            if not lengths or not readable or len({tuple(l) for _, l in lengths}) != 1 or not lengths[0][1]:
+                continue
+            L = lengths[0][1]
+            if any(not isinstance(parse_expr(x), (ast.Name, ast.Attribute)) for x in L):
+                continue
+            have = [u(alias(x)) for x in _factors(call.args[0])] + [u(x) for x in xf if not (isinstance(x, ast.Name) and x.id == t)]
+            node = call
+            while isinstance(parent(node), ast.BinOp) and isinstance(parent(node).op, ast.Mult):
+                node = parent(node)
+                have += [u(alias(x)) for x in _factors(node) if x is not call]
+            seen += 1
+            missing = [x for x in L if x not in have]
+            other = [x for x in have if x not in L and any(u(alias(w)) == x for w in _factors(call.args[0])) and isinstance(parse_expr(x), ast.Name)
+                     and not any(isinstance(v, ast.Call) for v in assigns.get(x, []))]
+            # a violation needs positive evidence: the placing length is absent, the integrand carries a different plain length instead, and nothing
+            # downstream can rescale the result (it is returned, or accumulated in a name that is only returned times constants)
+            closed = not (isinstance(parent(node), ast.BinOp))
+            st = node
+            while st is not None and not isinstance(st, ast.stmt):
+                st = parent(st)
+            if closed and isinstance(st, (ast.Assign, ast.AugAssign)):
+                tg = st.targets[0] if isinstance(st, ast.Assign) else st.target
+                closed = isinstance(tg, ast.Name)
+                if closed:
+                    for n in ast.walk(fn):
+                        if isinstance(n, ast.Name) and n.id == tg.id and isinstance(n.ctx, ast.Load):
+                            s2 = n
+                            while not isinstance(s2, ast.stmt):
+                                s2 = parent(s2)
+                            if s2 is st:
+                                continue
+                            if not isinstance(s2, (ast.Return, ast.AugAssign)) or {m.id for m in ast.walk(s2) if isinstance(m, ast.Name)} - {tg.id}                                     or any(isinstance(m, (ast.Attribute, ast.Call, ast.Subscript)) for m in ast.walk(s2)):
+                                closed = False
+            elif closed and isinstance(st, ast.Return):
+                closed = not any(isinstance(m, (ast.Name, ast.Attribute)) for m in ast.walk(st.value) if m is not call and not any(m is w for w in ast.walk(call)))
+            else:
+                closed = False
+            if missing and other and closed:
+                ctx.bad("R15j", c, f"the integral over `{t}` is scaled by the length {' * '.join(L)} that places the samples along the chord",
+                        f"samples: {lengths[0][0]} = ... + {t} * {' * '.join(L)} * direction[k];  integral: {u(call)[:120]}", key_detail="integrand length", loc=ctx.loc(ci.module, call), pointed=True)
+            elif missing:
+                ctx.unknown("R15j", c, "the placing length is a factor of the integral", f"could not find {L} among {have}", required=False, loc=ctx.loc(ci.module, call))
+            else:
+                ctx.ok("R15j", c, f"integral over `{t}` carries the placing length {' * '.join(L)}", loc=ctx.loc(ci.module, call))
+    if not seen:
+        ctx.unknown("R15j", f"{P}.slant_depth", "a trapezoid integral over a linspace chord parameter with readable sample points", "none found", required=False)
+
+
 def run(ctx):
     ctx.guard(r15f)
     ctx.guard(r15a)
@@ -242,10 +351,15 @@ def run(ctx):
     ctx.guard(r15c)
     ctx.guard(r15d)
     ctx.guard(r15e)
+    ctx.guard(r15j)
 
 
 SELFTEST = {
     "faults": [
+        {"name": "samples placed along a capped length, integrand still scaled by the full distance", "file": "pyrex/earth_model.py",
+         "old": "        xs = endpoint[0] + ts * distance * direction[0]\n        ys = endpoint[1] + ts * distance * direction[1]\n        zs = endpoint[2] + ts * distance * direction[2]\n",
+         "new": "        reach = min(distance, 2*self.earth_radius)\n        xs = endpoint[0] + ts * reach * direction[0]\n        ys = endpoint[1] + ts * reach * direction[1]\n        zs = endpoint[2] + ts * reach * direction[2]\n",
+         "rule": "R15j"},
         {"name": "slant depth remembered per chord, key without the step (generic memo rule)", "file": "pyrex/earth_model.py",
          "old": "        return 100 * trapz(rhos*distance, ts)",
          "new": "        key = (tuple(endpoint), tuple(direction))\n        if key in self._memo:\n            return self._memo[key]\n        self._memo[key] = 100 * trapz(rhos*distance, ts)\n        return self._memo[key]",
@@ -266,6 +380,9 @@ SELFTEST = {
         {"name": "density evaluated at the raw radius", "file": "pyrex/earth_model.py", "old": "np.piecewise(r/self.earth_radius,", "new": "np.piecewise(r,", "rule": "R15b"},
     ],
     "benign": [
+        {"name": "placing length renamed and used on both sides (R15j must stay silent)", "file": "pyrex/earth_model.py", "silent": ["R15j"],
+         "old": "        xs = endpoint[0] + ts * distance * direction[0]\n        ys = endpoint[1] + ts * distance * direction[1]\n        zs = endpoint[2] + ts * distance * direction[2]\n",
+         "new": "        length = distance\n        xs = endpoint[0] + ts * length * direction[0]\n        ys = endpoint[1] + ts * length * direction[1]\n        zs = endpoint[2] + ts * length * direction[2]\n"},
         {"name": "slant depth remembered per chord AND step (a completely keyed memo: the memo rule must stay silent)", "file": "pyrex/earth_model.py", "silent": ["R15u"],
          "old": "        return 100 * trapz(rhos*distance, ts)",
          "new": "        key = (tuple(endpoint), tuple(direction), step)\n        if key in self._memo:\n            return self._memo[key]\n        self._memo[key] = 100 * trapz(rhos*distance, ts)\n        return self._memo[key]"},
